@@ -605,6 +605,8 @@ class Exec:
             return Bool(False)
         if c == "()":
             return UNIT
+        if c in ("RangeFull", "std::ops::RangeFull", "core::ops::RangeFull"):
+            return Struct("RangeFull", [])
         if c.startswith("ZeroSized: "):
             ty = c[len("ZeroSized: "):].strip()
             if ty.startswith("{closure@"):
